@@ -23,7 +23,12 @@ RULE = (
     "epoch and the model of the best epoch with exactly those epochs' parameters, (c) finish training with a "
     "byte-identical history; a second crash at every event of the continuation's first update (crash bound 2) - "
     "thorough: after every first crash; quick: after first crashes that fall between the model and optimizer renames. "
-    "Crash-free runs: directory contents after every completed update. A case = (config, metrics, update, event); "
+    "After EVERY completed update - in crash-free runs and in the continuation after a crash - a fresh controller "
+    "on the same files must report that epoch as the last one and load last, best (and, when everything is kept, every "
+    "recorded epoch) with the parameters stamped for them, for all name formats; in crash-free runs the directory must "
+    "also hold exactly the documented files. Every crash-free history is run again with the controller, model and "
+    "optimizer rebuilt from the files before every non-empty subset of its updates (a restart without a crash): same "
+    "csv bytes and listings after every update as the uninterrupted run. A case = (config, metrics, update, event); "
     "distinct by construction; non-trivial = the crash lands after the first and before the last event of the update."
 )
 ASSUMPTIONS = [
